@@ -20,6 +20,7 @@ HOSTILE_LABELS = [" a", "b ", " c d ", "\ta", "a\n", "", "\u00a0nb", "wide\u3000
 
 
 BIG_RATE = 0.004
+HNAMES = ["h0", "h1", "h2", "h3", "h0", "h1", "{h}", "%s", "50%"]  # (tier names are free text: braces and percent signs are nothing special)
 
 
 class TierHistory:
@@ -100,7 +101,7 @@ class TierHistory:
                 a = pos
                 pos = round(pos + w * r.choice([0.5, 1.0, 1.5]), 9)
                 ents.append((a, pos, self.label()) if klass is self.I else (a, self.label()))
-            return self._run("construct", None, klass, ("h%d" % r.randrange(4), ents, 0.0, r.choice([None, self.hi])))
+            return self._run("construct", None, klass, (r.choice(HNAMES), ents, 0.0, r.choice([None, self.hi])))
         if self.hostile and not self.grid and r.random() < 0.06:
             # a run of same-labelled entries far from zero whose times differ by less than the library's comparison tolerance
             # (1e-9 relative) - pitch pulses, analysis frames - handed over in any order: they are distinct entries and the tier that
@@ -114,7 +115,7 @@ class TierHistory:
             else:
                 ents = [(t0 + k * step, lab) for k in range(m)]
             ents = ents[::-1] if r.random() < 0.6 else r.sample(ents, len(ents))
-            return self._run("construct", None, klass, ("h%d" % r.randrange(4), ents, r.choice([0.0, None]), r.choice([None, 2 * t0])))
+            return self._run("construct", None, klass, (r.choice(HNAMES), ents, r.choice([0.0, None]), r.choice([None, 2 * t0])))
         if self.hostile and klass is self.I and len(ents) >= 2 and r.random() < 0.12:
             # arbitrary entry lists: overlaps (also by a few ulps), degenerate and reversed intervals, unsorted input.
             # A sound constructor raises or repairs; it never hands back an ill-formed tier.
@@ -122,11 +123,15 @@ class TierHistory:
 
             i = r.randrange(len(ents) - 1)
             a, b = ents[i], ents[i + 1]
-            kind = r.choice(["ulp-overlap", "ulp-overlap", "overlap", "degenerate", "reversed", "unsorted", "rel-1e-15-overlap"])
+            kind = r.choice(["ulp-overlap", "ulp-overlap", "overlap", "degenerate", "reversed", "unsorted", "rel-1e-15-overlap", "one-ulp-sliver"])
             if kind == "ulp-overlap":
                 ents[i + 1] = (math.nextafter(a[1], 0), b[1], b[2])
             elif kind == "rel-1e-15-overlap":
                 ents[i + 1] = (a[1] * (1 - 2e-15) if a[1] > 0 else a[1], b[1], b[2])
+            elif kind == "one-ulp-sliver":
+                # well-formed, this one: an interval exactly one ulp long (moved far enough along the axis it has no length left - an
+                # operation then refuses, or keeps it apart; it does not hand back an interval without length)
+                ents[i] = (a[0], math.nextafter(a[0], math.inf), a[2])
             elif kind == "overlap":
                 ents[i + 1] = ((a[0] + a[1]) / 2, b[1], b[2])
             elif kind == "degenerate":
@@ -154,7 +159,7 @@ class TierHistory:
         hi = r.choice([self.hi, None, self.hi + self.src(self.hi)])
         if not ents and (lo is None or hi is None):
             lo, hi = 0.0, self.hi
-        return self._run("construct", None, klass, ("h%d" % r.randrange(4), ents, lo, hi))
+        return self._run("construct", None, klass, (r.choice(HNAMES), ents, lo, hi))
 
     def _add(self, t):
         if t is None or not hasattr(t, "_entries"):
@@ -251,6 +256,8 @@ class TierHistory:
             res = self._run(op, t, t.insertSpace, (self.time(t), d, r.choice(("stretch", "split", "no_change", "error"))))
         elif op == "editTimestamps":
             off = r.choice([-1, 1]) * (self.src(self.hi) if r.random() < 0.7 else self.time(t))
+            if self.hostile and not self.grid and r.random() < 0.1:
+                off = r.choice([7200.0, 86400.0, 1.0e6, -7200.0])  # the excerpt is put back on the time axis of the recording it came from
             res = self._run(op, t, t.editTimestamps, (off, r.choice(("silence", "warning", "error"))))
         elif op == "insertEntry":
             lab = self.label()
